@@ -120,6 +120,9 @@ impl Cfg {
 pub struct Truth {
     pub live: Mutex<BTreeSet<u64>>,
     pub next_id: Mutex<u64>,
+    /// handle on the pool under test, for the scripted manager's lock probe (set after
+    /// `build()`, cleared when the `World` goes away)
+    pub pool: Mutex<Option<Pool<Mgr>>>,
 }
 
 /// The pooled value. Constructor and destructor write the ground truth.
@@ -283,7 +286,27 @@ impl Manager for Mgr {
     }
 
     fn detach(&self, obj: &mut Tracked) {
-        self.sched.event(format!("detach({},{})", cur_op(), obj.id));
+        let op = cur_op();
+        // `close()`, the shrink loop of `resize()` and `retain()` detach the objects they
+        // release inside their critical section (one atomic step of the model): a try_lock
+        // from here must fail
+        if op < self.sched.n_ops() {
+            let lbl = self.sched.op(op).label;
+            if lbl == "close.lock" || lbl == "resize.shrink" || lbl == "retain" {
+                if let Some(p) = self.truth.pool.lock().unwrap().as_ref() {
+                    if p.verif_snapshot(|_, _| {}).slots.is_some() {
+                        // the critical section is broken: record it (the model has no such
+                        // event, so the correspondence diverges here) and make the window a
+                        // schedule point, so that other operations really run inside it and
+                        // the monitors can see what that does
+                        self.sched.event(format!("atomicity({},detach@{})", op, lbl));
+                        let c = self.sched.yield_at(op, "cs-break", false, false);
+                        assert_eq!(c, Outcome::Run, "non-run command at cs-break");
+                    }
+                }
+            }
+        }
+        self.sched.event(format!("detach({},{})", op, obj.id));
     }
 }
 
@@ -321,6 +344,7 @@ pub fn try_build(w: Tmo, c: Tmo, r: Tmo, rt: bool) -> &'static str {
     let truth = Arc::new(Truth {
         live: Mutex::new(BTreeSet::new()),
         next_id: Mutex::new(0),
+        pool: Mutex::new(None),
     });
     let mgr = Mgr { truth, sched };
     let t = Timeouts {
@@ -486,12 +510,19 @@ fn show_err(e: &PoolError<()>) -> &'static str {
     }
 }
 
+impl Drop for World {
+    fn drop(&mut self) {
+        *self.truth.pool.lock().unwrap() = None;
+    }
+}
+
 impl World {
     pub fn new(cfg: Cfg) -> World {
         let sched = Sched::new();
         let truth = Arc::new(Truth {
             live: Mutex::new(BTreeSet::new()),
             next_id: Mutex::new(0),
+            pool: Mutex::new(None),
         });
         let mgr = Mgr {
             truth: truth.clone(),
@@ -521,6 +552,7 @@ impl World {
             b = b.post_create(make_hook(&sched, "post_create", k, *a));
         }
         let pool = b.build().expect("build");
+        *truth.pool.lock().unwrap() = Some(pool.clone());
         World {
             cfg,
             sched,
@@ -600,8 +632,8 @@ impl World {
             Spec::Get(w, c, r) => ("get.enter", OpKind::Get(*w, *c, *r)),
             Spec::Ret(_) | Spec::RetUnwind(_) => ("ret.users", OpKind::Ret),
             Spec::Take(_) => ("take.users", OpKind::Take),
-            Spec::Resize(_) => ("resize.lock", OpKind::Resize),
-            Spec::Close => ("close.lock", OpKind::Close),
+            Spec::Resize(_) => ("resize.enter", OpKind::Resize),
+            Spec::Close => ("close.enter", OpKind::Close),
             Spec::Retain(_) => ("retain", OpKind::Retain),
             Spec::Status => ("status", OpKind::Status),
         };
@@ -727,6 +759,8 @@ impl World {
                             // one atomic step): a try_lock from here must fail
                             if p2.verif_snapshot(|_, _| {}).slots.is_some() {
                                 s2.event(format!("atomicity({},retain)", i));
+                                let c = s2.yield_at(i, "cs-break", false, false);
+                                assert_eq!(c, Outcome::Run, "non-run command at cs-break");
                             }
                             s2.event(format!(
                                 "pred({},{},{},{})",
@@ -786,13 +820,6 @@ impl World {
             }
         };
         let obs = self.obs(i);
-        if obs.contains("atomicity(") {
-            // kept in the trace as the last line before the error
-            return Err(format!(
-                "ATOMICITY: retain() ran its predicate while the slots mutex was free - idle objects are invisible to a concurrent get() although their slots are free (max_size can be exceeded): {}",
-                obs
-            ));
-        }
         Ok(obs)
     }
 
@@ -853,8 +880,8 @@ impl World {
     }
 
     /// Tear down after a trace (not part of the trace): every worker must be finished.
-    pub fn finish(self) {
-        for h in self.threads {
+    pub fn finish(mut self) {
+        for h in std::mem::take(&mut self.threads) {
             let _ = h.join();
         }
         let out = std::mem::take(&mut *self.out.lock().unwrap());
